@@ -187,7 +187,7 @@ def parse_args(argv: "Optional[List[str]]") -> Settings:
             sys.stderr.write("Unrecognized flag: " + arg + "\n")
             sys.exit(1)
         else:
-            posargs.append(longarg)
+            posargs.append(arg)
         i += 1
 
     if "--help" in flags:
